@@ -411,7 +411,11 @@ def pauli_walk(model: Model, rep: Report):
                 found_md = "0.5 * " + show(md)
                 if not dom_ok:
                     found_md = f"max over {show(gens[0][0]) if gens else '?'}" + (" with a filter" if gens and gens[0][1] else "")
-            if not ok_md and not (md is not None and md[0] == "call" and md[1] == "max"):
+            from_state = t_arg is not None and bool(subterms(t_arg, lambda x: x[0] == "attr" and x[1] == s))   # read from the factory object (a table kept across calls)
+            has_max = md is not None and bool(subterms(md, lambda x: x[0] == "call" and x[1] == "max"))
+            # undecided only for a duration that IS half of something (md) which is computed without any max(..) -- a running maximum / a helper; a time that is not half
+            # of anything, or a max(..) that is altered (guarded, sliced, defaulted differently), is a definite deviation
+            if not ok_md and not from_state and md is not None and not has_max:
                 # not written as max(...) over the block: a running maximum / helper -- its value is not read here (block_local_time decides that it is per block)
                 raise AnalysisError(f"{construct}: the block duration {found_md[:120] if found_md else None} is not written as max(<durations of the block>); not read")
             rep.check(ok_md, "C14.N4", construct + "[block-duration]", f.loc, found=found_md, required="0.5 * max(settings.get_operation_duration(i.name) for i in <the whole block>)",
